@@ -67,6 +67,7 @@ type caseSpec struct {
 	TimeoutMs int64     `json:"timeout_ms"`
 	NoChain   []int64   `json:"nochain,omitempty"`
 	Live      bool      `json:"live,omitempty"`
+	NoVal     bool      `json:"noval,omitempty"` // disableValidation: the component has no validator
 	Pool0     []poolEnt `json:"pool0,omitempty"`
 	Events    []evSpec  `json:"events"`
 }
@@ -356,6 +357,7 @@ func genCase(stream string, seed uint64, index int, thorough bool) caseSpec {
 		c.NoChain = []int64{int64(r.Range(1, 4))}
 	}
 	c.Pool0 = genPool(r, false)
+	c.NoVal = !guarded && r.Chance(1, 8)
 	nev := r.Range(3, 14)
 	if index < 30 {
 		nev = r.Range(2, 5)
@@ -474,6 +476,11 @@ func liveCases(seed uint64) []caseSpec {
 	out = append(out, mk("timeout-request", always, p0, recv(lt3(1, []int{1, 2, 3})), tick, tick))
 	// the node is already at that height: no request
 	out = append(out, mk("timeout-norequest", always, p0, evSpec{Op: "height", Height: 5}, recv(lt3(1, []int{1, 2, 3})), tick))
+	// height comparisons of the loop body: below / equal / above the node's height
+	for i, h := range []int64{4, 5, 6} {
+		out = append(out, mk(fmt.Sprintf("timeout-height-%d", i), always, p0, evSpec{Op: "height", Height: h},
+			recv(lt3(1, []int{1, 2, 3})), tick, evSpec{Op: "height", Height: 9}, recv(lt3(2, []int{1, 2, 4})), tick))
+	}
 	// arrives before the (never reached) timeout
 	out = append(out, mk("arrives", never, p0, recv(lt3(2, []int{1, 2, 3})), tick, pool(poolEnt{2, 1}, poolEnt{3, 2}), tick))
 	// fatal out of memory: TxCount = 2^40 (8 TiB of pointers), below the makeslice limit
@@ -498,6 +505,14 @@ func liveCases(seed uint64) []caseSpec {
 	out = append(out, mk("overrun-20", never, p0, recv(lt3(1, []int{1, 2, 3})), pool(poolEnt{2, idW20}), tick))
 	out = append(out, mk("overrun-3of2", never, nil, recv(lt3(1, []int{1, 2, 3})), pool(poolEnt{2, idW3of2}), tick))
 	// two pending blocks, the second one overruns after the first was completed
+	// disableValidation: an honest block that is completed in the pending loop kills the node
+	nv := mk("novalidator-honest", never, nil, recv(lt3(1, []int{1, 2, 3})), tick, pool(poolEnt{2, 1}, poolEnt{3, 2}), tick)
+	nv.NoVal = true
+	out = append(out, nv)
+	// ... while a block that is complete on arrival is handed over under the recover
+	nv2 := mk("novalidator-arrival", never, []poolEnt{{2, 1}, {3, 2}}, recv(lt3(1, []int{1, 2, 3})), tick, recv(lt3(2, []int{1, 2, 4})), tick)
+	nv2.NoVal = true
+	out = append(out, nv2)
 	out = append(out, mk("two-pending", never, nil, recv(lt3(1, []int{1, 2, 3})), recv(lt3(2, []int{1, 4, 5})),
 		pool(poolEnt{2, 1}, poolEnt{3, 2}, poolEnt{4, 3}, poolEnt{5, idG1}), tick))
 	return out
